@@ -77,7 +77,6 @@ Proof. exact @backward_children. Qed.
 (** an optimizer update re-binds parameters to fresh nodes and leaves every old node's payload intact *)
 Theorem C08_update_rebinds :
   forall (F : Type) (O : ScalarOps F) (s : state) (lr : F) (params : list handle),
-         NoDup (map e_node (unfrozen s params)) ->
          gd_pre s params ->
          exists (s' : state) (out : list handle),
            gd_update O s lr params = Some (s', out) /\ gd_post O s lr params s' out.
